@@ -65,6 +65,14 @@ Verbs == {[fam |-> "verbatim", b |-> b, l |-> l, pl |-> "top"] : b \in Strs(Smal
 Between == {[fam |-> "between", k |-> k, k2 |-> k2, m |-> m] : k \in {"print", "set", "comment", "iftrue"}, k2 \in {"print", "comment", "verbatim", "for"},
                                                                 m \in Strs(SmallAlphabet, 1)}
 
+\* family 6: what cannot be a template must be refused, not rendered with part of its text missing: an end tag that
+\* closes nothing, a second block of the same name
+StrayTags == {"endif", "else", "elseif x", "endfor", "endblock", "endmacro", "endverbatim", "endapply", "endspaceless"}
+StrayCases == {[fam |-> "stray", tag |-> t, pre |-> p] : t \in StrayTags, p \in {"", "{% if v %}x{% endif %}", "{% for i in [1] %}{{ i }}{% endfor %}"}}
+              \cup {[fam |-> "stray", tag |-> "dupblock", pre |-> p] : p \in {"", "x"}}
+StraySource(c) == IF c.tag = "dupblock" THEN <<W(c.pre), W("{% block a %}x{% endblock %}m{% block a %}y{% endblock %}z")>>
+                  ELSE <<W("a"), W(c.pre), W("{% "), W(c.tag), W(" %}"), W("b{{ v }}c")>>
+
 \* where a verbatim block stands: the body is inert everywhere
 VerbIn(c) ==
     LET vb == <<Verbatim(c.b)>> IN
@@ -112,9 +120,9 @@ CaseOfVerbTags(c) ==
      expect |-> [ok |-> TRUE, out |-> <<>>, noout |-> TRUE, err |-> "", calls |-> [id \in {"s1"} |-> 0],
                  always |-> [id \in {"s1"} |-> 0], absent |-> <<81, 90, 81>>]]
 
-Parts == {"around", "alone", "comment", "verbatim", "between"}
+Parts == {"around", "alone", "comment", "verbatim", "between", "stray"}
 SetOf(p) == CASE p = "around" -> Around [] p = "alone" -> AloneC [] p = "comment" -> Comments
-              [] p = "verbatim" -> Verbs [] p = "between" -> Between
+              [] p = "verbatim" -> Verbs [] p = "between" -> Between [] p = "stray" -> StrayCases
 
 \* partitions: the big family is cut by tag kind and left literal so that TLC's workers share it
 Init == cs \in {[part |-> p, k |-> "", l |-> <<>>] : p \in Parts \ {"around"}}
@@ -122,9 +130,13 @@ Init == cs \in {[part |-> p, k |-> "", l |-> <<>>] : p \in Parts \ {"around"}}
 Next == "part" \in DOMAIN cs /\
         cs' \in (IF cs.part = "around"
                  THEN {c \in {[fam |-> "around", k |-> cs.k, l |-> cs.l, r |-> r] : r \in Strs(Alphabet, Side)} : Admissible(c)}
-                 ELSE {c \in SetOf(cs.part) : Admissible(c)})
+                 ELSE {c \in SetOf(cs.part) : c.fam = "stray" \/ Admissible(c)})
 Spec == Init /\ [][Next]_cs
 IsCase == "fam" \in DOMAIN cs
-Emit == IsCase => PrintT(ToJson(IF cs.fam = "verbatim" /\ cs.b \in HandVerb THEN CaseOfVerbTags(cs) ELSE CaseOf(cs)))
-ModelOK == IsCase => Ref(cs).ok
+CaseOfStray(c) ==
+    [prop |-> "C04", key |-> ToJson(c), tags |-> {"fam:stray", "tag:" \o c.tag}, entry |-> "main", ctx |-> Ctx,
+     runs |-> {[label |-> "stray", tp |-> ("main" :> StraySource(c)), xcalls |-> [id \in {} |-> 0]]},
+     expect |-> [ok |-> FALSE, out |-> <<>>, err |-> "any", calls |-> [id \in {} |-> 0]]]
+Emit == IsCase => PrintT(ToJson(IF cs.fam = "stray" THEN CaseOfStray(cs) ELSE IF cs.fam = "verbatim" /\ cs.b \in HandVerb THEN CaseOfVerbTags(cs) ELSE CaseOf(cs)))
+ModelOK == (IsCase /\ cs.fam # "stray") => Ref(cs).ok
 =============================================================================
